@@ -280,3 +280,156 @@ _tu0 = units
 
 def units():
     return _tu0() + frobenius_units()
+
+
+# ---------------------------------------------------------------------------
+# Fq12::square_cyclotomic(a) == a^2 for every a of the cyclotomic subgroup G = { a : a^(q^4 - q^2 + 1) == 1 }.
+# The real body is executed with the twelve F_q coordinates of a as indeterminates (RING back end, Fq leaves): S_j(x), quadratic.
+# With the F_q-linear Frobenius matrices of the reference tower, R(x) = Frob^4(a) * a - Frob^2(a) is a vector of twelve quadratic polynomials
+# that vanishes exactly on G (and at 0).  Decided: every coordinate of S(x) - a^2 is an F_q-linear combination of the R_i (linear algebra
+# modulo q on the coefficient vectors; the combination is found and then re-checked), hence S == a^2 wherever R == 0.
+def cyclotomic_units():
+    from symx import Interp, Leaf, Cell
+    from ringdom import leaves_of
+    from scen import ScenUnit, guarded
+    import tower_ref as TR
+    import units as U
+    Qm = TR.Q
+
+    def mulq(x, y):
+        return x * y
+
+    def fq2_mul(a, b):
+        return (a[0] * b[0] - a[1] * b[1], a[0] * b[1] + a[1] * b[0])
+
+    def fq2_add(a, b):
+        return (a[0] + b[0], a[1] + b[1])
+
+    def fq2_nonres(a):                       # * (u + 1)
+        return (a[0] - a[1], a[0] + a[1])
+
+    def fq6_mul(a, b):
+        t = [[fq2_mul(a[i], b[j]) for j in range(3)] for i in range(3)]
+        c0 = fq2_add(t[0][0], fq2_nonres(fq2_add(t[1][2], t[2][1])))
+        c1 = fq2_add(fq2_add(t[0][1], t[1][0]), fq2_nonres(t[2][2]))
+        c2 = fq2_add(fq2_add(t[0][2], t[1][1]), t[2][0])
+        return (c0, c1, c2)
+
+    def fq6_add(a, b):
+        return tuple(fq2_add(x, y) for x, y in zip(a, b))
+
+    def fq6_nonres(a):                       # * v
+        return (fq2_nonres(a[2]), a[0], a[1])
+
+    def fq12_mul(a, b):
+        return (fq6_add(fq6_mul(a[0], b[0]), fq6_nonres(fq6_mul(a[1], b[1]))), fq6_add(fq6_mul(a[0], b[1]), fq6_mul(a[1], b[0])))
+
+    def nest(flat):
+        f = list(flat)
+        return tuple(tuple((f[6 * i + 2 * j], f[6 * i + 2 * j + 1]) for j in range(3)) for i in range(2))
+
+    def flat(n):
+        return [n[i][j][k] for i in range(2) for j in range(3) for k in range(2)]
+
+    def gen(tu):
+        f = tu.func("Fq12::square_cyclotomic")
+        for alias in (False, True):
+            def run(path, alias=alias):
+                d = RingDomain({"Fq", "BigInt<384>"}, consts=U.SHARED.get("consts"))
+                I = Interp(tu, d)
+                I.path = path
+                I.scopes = ["Fq12"]
+                a = I.new_object("Fq12")
+                this = a if alias else I.new_object("Fq12")
+                names = []
+                for p, lf in leaves_of(a, "a", {}).items():
+                    lf.val = Poly.var(p)
+                    names.append(p)
+                X = [Poly.var(p) for p in names]
+                I.call(f, this, [a])
+                S = [lf.val for p, lf in leaves_of(this, "this", {}).items()]
+                if len(S) != 12 or any(not isinstance(o, Poly) for o in S):
+                    return [("all twelve coordinates written", "fail", repr(S)[:200], None)]
+                if any(v not in names for o in S for v in o.vars()):
+                    return [("square_cyclotomic is a polynomial map of the coordinates of a", "fail", "foreign symbols", None)]
+                A = nest(X)
+                A2 = flat(fq12_mul(A, A))
+                # Frobenius matrices of the reference tower (columns: images of the basis vectors under x -> x^q)
+                cols = []
+                for i in range(12):
+                    e = TR.from_flat(12, [1 if j == i else 0 for j in range(12)])
+                    cols.append(list((e ** TR.Q).flat()))
+
+                def frob(vec):
+                    return [sum((vec[i] * cols[i][r] for i in range(12)), Poly()) for r in range(12)]
+                F1 = frob(X)
+                F2 = frob(F1)
+                F4 = frob(frob(F2))
+                prod = flat(fq12_mul(nest(F4), A))
+                R = [prod[r] - F2[r] for r in range(12)]
+                red = lambda p: {m: c % Qm for m, c in p.t.items() if c % Qm}
+                Rv = [red(r) for r in R]
+                obs = []
+                mons = sorted({m for r in Rv for m in r} | {m for j in range(12) for m in red(S[j] - A2[j])}, key=repr)
+                # Gaussian elimination modulo q: columns = R_i, rows = monomials
+                for j in range(12):
+                    Dj = red(S[j] - A2[j])
+                    rows = [[Rv[i].get(m, 0) for i in range(12)] + [Dj.get(m, 0)] for m in mons]
+                    lam = solve_mod(rows, 12, Qm)
+                    ok = lam is not None
+                    if ok:
+                        chk = {}
+                        for i in range(12):
+                            for m, c in Rv[i].items():
+                                chk[m] = (chk.get(m, 0) + lam[i] * c) % Qm
+                        ok = {m: c for m, c in chk.items() if c} == Dj
+                    obs.append(("coordinate %d of square_cyclotomic(a) - a^2 is an F_q-combination of the coordinates of Frob^4(a)*a - Frob^2(a)%s" % (j, " [out = a]" if alias else ""), "ok" if ok else "fail", "", None))
+                # sanity of the relation itself on a concrete element of G: g = z^((q^12-1)/Phi) for a pseudo-random z
+                import random
+                rnd = random.Random(11)
+                z = TR.from_flat(12, [rnd.randrange(Qm) for _ in range(12)])
+                g = z ** ((Qm ** 12 - 1) // (Qm ** 4 - Qm ** 2 + 1))
+                env = dict(zip(names, g.flat()))
+                obs.append(("the relation vanishes on a concrete element of the subgroup and not on a random element", "ok" if all(r.eval(env, Qm) == 0 for r in R) and any(r.eval(dict(zip(names, z.flat())), Qm) != 0 for r in R) else "fail", "", None))
+                return obs
+            yield "square_cyclotomic%s" % (" [out = a]" if alias else ""), guarded(run)
+    return [ScenUnit("Fq12::square_cyclotomic == squaring on the cyclotomic subgroup (all elements with a^(q^4-q^2+1) == 1)", ["C04", "C07"], gen, targets=["Fq12::square_cyclotomic"],
+                     contracts_used=["Fq2 operations (C04 units) executed as real bodies over F_q leaves", "Frobenius = q-power map, F_q-linear (field theory)"])]
+
+
+def solve_mod(rows, n, q):
+    """rows: [coefficients of n unknowns..., rhs] modulo the prime q; returns a solution list or None"""
+    rows = [[x % q for x in r] for r in rows]
+    piv = []
+    rr = 0
+    for col in range(n):
+        p = None
+        for i in range(rr, len(rows)):
+            if rows[i][col]:
+                p = i
+                break
+        if p is None:
+            continue
+        rows[rr], rows[p] = rows[p], rows[rr]
+        inv = pow(rows[rr][col], -1, q)
+        rows[rr] = [(x * inv) % q for x in rows[rr]]
+        for i in range(len(rows)):
+            if i != rr and rows[i][col]:
+                m = rows[i][col]
+                rows[i] = [(x - m * y) % q for x, y in zip(rows[i], rows[rr])]
+        piv.append((rr, col))
+        rr += 1
+    for i in range(rr, len(rows)):
+        if rows[i][n]:
+            return None
+    sol = [0] * n
+    for r, c in piv:
+        sol[c] = rows[r][n]
+    return sol
+
+
+_tu1 = units
+
+
+def units():
+    return _tu1() + cyclotomic_units()
